@@ -630,10 +630,13 @@ def c15(tier, rep):
                 rep.violation({"kind": "schedule"}, {"engine": "schedule", "what": b.get("what"), "detail": b})
         if uniq:
             rep.sample({"schedule": [x[1] for x in uniq[len(uniq) // 2]["sched"]], "documents": [sub[h[0]["d"] - 1][:30] for h in uniq[len(uniq) // 2]["hist"] if h]})
+    # the standard limit / look-ahead / state-leaving documents, twice, through one re-used parser and matcher
+    lim = E.src_limits()
+    E.reuse_pass(rep, lim + lim[::-1] + lim, "reuse-limits")
     # determinism across processes: the same documents in interpreters with different string-hash seeds
     import subprocess, sys as _sys
     probe = ("import sys, json; sys.path.insert(0, sys.argv[1]); sys.path.insert(0, sys.argv[2]); import record as R, engines as E, gen\n"
-             "docs = [x for x in E.src_limits() if x[0].startswith(('empty-header', 'tag-placeholder', 'nfc'))] + E.src_generated(40, 5)\n"
+             "docs = [x for x in E.src_limits() if x[0].startswith(('empty-header', 'tag-placeholder', 'nfc', 'column-cross'))] + E.src_generated(40, 5)\n"
              "print(json.dumps([[R.record(n, s, d)[k] for k in ('ast', 'pickles', 'errs')] for n, s, d in docs]))")
     from common import VERIF
     outs = []
